@@ -21,77 +21,78 @@ WIDTH = {"byte": 8, "halfword": 16, "word": 32}
 LEGAL = {"byte": (0, 1, 2, 3), "halfword": (0, 1, 2), "word": (0,)}
 
 
-class _OffFolder(Folder):
-    def __init__(self, off: int) -> None:
-        super().__init__(None, None, None, {})  # type: ignore[arg-type]
-        self.off = off
+def _run(m, f, off: int, w: int, value_param=None):
+    """Run a block helper by abstract interpretation with byte offset `off` (a constant), the selected word and the value
+    symbolic.  -> (returned form | None, form stored into block[block_offset] | None, raised?)"""
+    from .absrun import AbsRun
+    da, blk = f.params[0], f.params[1]
+    sel = f"{blk}[{da}.block_offset]"
+    stored: list = []
 
-    def fold(self, e):
-        if ast.unparse(e) == "decoded_address.byte_offset":
-            return self.off
-        return Folder.fold(self, e)
+    def on_load(e, ev):
+        if isinstance(e, ast.Subscript) and ast.unparse(e) == sel:
+            return Form.field("word", 0, 32)
+        return None
+
+    def on_store(t, v, ev):
+        if isinstance(t, ast.Subscript) and ast.unparse(t) == sel:
+            stored.append(v)
+            return True
+        return False
+
+    def on_call(c, ev):
+        fn = ast.unparse(c.func)
+        if fn in ("UInt8", "UInt16", "UInt32", "fixedint.UInt8", "fixedint.UInt16", "fixedint.UInt32") and len(c.args) == 1:
+            return ev.ev(c.args[0]).and_mask((1 << int(fn.split("UInt")[1])) - 1)
+        return None
+
+    env = {}
+    if value_param is not None:
+        env[value_param] = Form.field("v", 0, w)
+    run = AbsRun(m, f, env, {f"{da}.byte_offset": off, f"{da}.block_offset": 0}, on_call=on_call, on_load=on_load, on_store=on_store)
+    run.lenient = False
+    # `return block` of the merge helpers: the list itself is not a form
+    run.env[blk] = Form.var("__block__")
+    res = run.run()
+    last = stored[-1] if stored else None
+    if isinstance(last, Inconclusive):
+        raise last
+    return res, last, run.raised is not None
 
 
 def lane_rule(ctx: Ctx, rid: str) -> None:
     m = ctx.model
-    r = ctx.rule(rid, "byte-lane merge/extract of the block helpers (bit-slice domain, per offset)")
+    r = ctx.rule(rid, "byte-lane merge/extract of the block helpers (abstract interpretation in the bit-slice domain, per offset)")
     mod = m.module("util.integer_manipulation")
     for kind in ("byte", "halfword", "word"):
         w = WIDTH[kind]
-        # ---------------------------------------------------------- extract
         f = mod.functions.get(f"{kind}_from_block")
         if f is None:
             raise AnalysisError(f"anchor vanished: {kind}_from_block")
-        rets = [n for n in ast.walk(f.node) if isinstance(n, ast.Return)]
-        if len(rets) != 1 or rets[0].value is None:
-            raise AnalysisError(f"{kind}_from_block: single return expected")
-        val = rets[0].value
         for off in LEGAL[kind]:
-            env = {"block[decoded_address.block_offset]": Form.field("word", 0, 32),
-                   "int(block[decoded_address.block_offset])": Form.field("word", 0, 32)}
-            expr = val
-            cast_w = None
-            if isinstance(expr, ast.Call) and ast.unparse(expr.func) in ("UInt8", "UInt16", "UInt32") and len(expr.args) == 1:
-                cast_w = int(ast.unparse(expr.func)[4:])
-                expr = expr.args[0]
             try:
-                got = Evaluator(env, _OffFolder(off)).ev(expr)
-                if cast_w is not None:
-                    got = got.and_mask((1 << cast_w) - 1)
+                got, _, raised = _run(m, f, off, w)
             except Inconclusive as exc:
                 raise AnalysisError(f"{rid}: {kind}_from_block outside the bit-slice domain: {exc}")
             want = Form.field("word", 8 * off, 8 * off + w)
-            r.check(got == want, f"{kind}_from_block|offset {off}", f.loc(), f"{kind}_from_block at byte offset {off} returns {got.describe()}, "
+            r.check(got is not None and not raised and got == want, f"{kind}_from_block|offset {off}", f.loc(),
+                    f"{kind}_from_block at byte offset {off} returns {got.describe() if got is not None else 'nothing'}, "
                     f"expected bits [{8 * off},{8 * off + w}) of the word")
-        # ------------------------------------------------------------ merge
         f = mod.functions.get(f"{kind}_into_block")
         if f is None:
             raise AnalysisError(f"anchor vanished: {kind}_into_block")
         pname = f.params[2]
         for off in LEGAL[kind]:
-            env = {"block[decoded_address.block_offset]": Form.field("word", 0, 32),
-                   "int(block[decoded_address.block_offset])": Form.field("word", 0, 32),
-                   pname: Form.field("v", 0, w), f"int({pname})": Form.field("v", 0, w)}
-            stored = None
             try:
-                for st in f.node.body:
-                    if isinstance(st, ast.Assign) and isinstance(st.targets[0], ast.Name):
-                        env[st.targets[0].id] = Evaluator(env, _OffFolder(off)).ev(st.value)
-                    elif isinstance(st, ast.Assign) and ast.unparse(st.targets[0]) == "block[decoded_address.block_offset]":
-                        v = st.value
-                        if isinstance(v, ast.Call) and ast.unparse(v.func) == "UInt32" and len(v.args) == 1:
-                            stored = Evaluator(env, _OffFolder(off)).ev(v.args[0]).and_mask(0xFFFFFFFF)
-                        else:
-                            stored = Evaluator(env, _OffFolder(off)).ev(v)
+                _, stored, raised = _run(m, f, off, w, pname)
             except Inconclusive as exc:
                 if "overlapping" in str(exc):
-                    stored = None
                     r.check(False, f"{kind}_into_block|offset {off}", f.loc(), f"{kind}_into_block at byte offset {off}: the old lane is not "
                             "cleared before the new value is OR-ed in (overlapping bits)")
                     continue
                 raise AnalysisError(f"{rid}: {kind}_into_block outside the bit-slice domain: {exc}")
-            if stored is None:
-                raise AnalysisError(f"{rid}: {kind}_into_block stores nothing recognisable")
+            if stored is None or raised:
+                raise AnalysisError(f"{rid}: {kind}_into_block stores nothing recognisable at offset {off}")
             lo, hi = 8 * off, 8 * off + w
             want = Form(bits={("word", b): 1 << b for b in range(32) if not (lo <= b < hi)}) + Form.field("v", 0, w).lshift(lo)
             r.check(stored == want, f"{kind}_into_block|offset {off}", f.loc(), f"{kind}_into_block at byte offset {off} stores "
